@@ -211,7 +211,8 @@ func (d *DevLoader) LoadChanges(ctx context.Context, base, files []migrate.File)
 		return nil, fmt.Errorf("taking database snapshot: %w", err)
 	}
 	defer func() {
-		if err2 := restore(ctx); err2 != nil {
+		// Restore the database also if the context was canceled (e.g., the command was interrupted).
+		if err2 := restore(context.WithoutCancel(ctx)); err2 != nil {
 			err = errors.Join(err, fmt.Errorf("restore dev-database snapshot: %w", err2))
 		}
 	}()
